@@ -87,6 +87,9 @@ def check(ctx):
     ok = check_property_proofs(ctx, "C06")
     if not ok:
         ctx.violation("proof obligation for C06 no longer checks", {"broken": [n for n, o, _ in ctx.obligations if not o]}, found_input=False)
+    # what the generator emits for this property's constructs (trailing-skip type / stack built-ins and slices), both AST paths
+    from .. import gencore
+    gencore.v1(ctx, 150 if ctx.tier == "quick" else 1500, which=("opt", "raw"))
     envs, run = core.core_run(ctx.tier)
     core.scan(ctx, envs, run, ("slices",), make_t3(envs), nontrivial, "stack built-in off its spec")
     lim = 3 if ctx.tier == "quick" else 6
